@@ -1667,6 +1667,7 @@ class Translator:
         """C++ wrappers implementing the extracted-C API of member functions on the real object (see replay/bridge_*.cpp).
         The hand-written bridge provides BR_LOAD(self), BR_STORE(self) and BR_OBJ(Class) (the real object)."""
         out = ['// GENERATED by extract/cxx2c.py -- extracted-C API implemented on the real C++ objects']
+        out += ['#define BRIDGE_FN_%s 1' % k for k in self.func_decl]
         done = []
         for nm in names:
             d = self.func_decl.get(nm)
